@@ -173,6 +173,29 @@ def run(ctx):
                         res.violations.append({"what": "path %s was committed with commit type %r; under the store configured next with commit type %r it resolves to "
                                                        "%r / loads as %r (expected %r / %r)" % (pj, order[cj], ct, got_k, got_v, kj, vj), "input": case, "kf": None})
                         break
+        # ---- directories given as URIs with an authority (a bucket, a container): everything the store writes and reads lies
+        # under the two URIs as they were given, and what is kept there loads back ----
+        for (iu, du) in (("s3://bkt-internal/team/dds/internal", "s3://bkt-published/dds/data"),
+                         ("abfss://work@acme.dfs.core.windows.net/dds/internal", "abfss://pub@acme.dfs.core.windows.net/dds/data"),
+                         ("dbfs:/mnt/a/internal/", "dbfs:///mnt/b/data")):
+            d = mkd()
+            db = FakeDbutils(d)
+            case = {"internal_dir": iu, "data_dir": du}
+            res.evaluations += 1
+            res.nontrivial("uri %s" % iu)
+            try:
+                api.set_store("dbfs", iu, du, db, "full", None)
+                api._store_var.store_blob("usig", "text under a uri", None)
+                api._store_var.sync_paths(OrderedDict([("/u/p", "usig")]))
+                back = (dict(api._store_var.fetch_paths(["/u/p"])).get("/u/p"), api._store_var.fetch_blob("usig"), dds.load("/u/p"))
+            except BaseException as e:
+                back = "EXC:%s:%s" % (type(e).__name__, str(e)[:100])
+            touched = sorted(set(x for c_ in db.fs.calls for x in c_[1:] if not str(x).startswith("file:")))
+            norm = lambda u: u.replace("dbfs:///", "dbfs:/").rstrip("/")
+            outside = [x for x in touched if not (norm(x).startswith(norm(iu)) or norm(x).startswith(norm(du)))]
+            if back != ("usig", "text under a uri", "text under a uri") or outside or not touched:
+                res.violations.append({"what": "store directories given as %s / %s: keep and load give %r; locations touched outside the two directories: %s" % (iu, du, back, outside[:4]),
+                                       "input": case, "kf": None})
         # ---- legacy references ----
         for legacy, v, minimal in [(l_, v_, m_) for (l_, v_) in (("dbfs.string", "texte é"), ("dbfs.bytes", b"\x00raw\xff"), ("dbfs.pickle", {"a": (1, 2)}))
                                    for m_ in (False, True)]:
